@@ -8,4 +8,4 @@ Definition gen_mca_facts : mca_facts := mkFacts
   [SObserve; SObserve; SObserveIfNorm]
   [SReadOld; (SSetPar Up); SObserve; (SSetPar Down); SObserve; (SSetPar Back); SObserveIfNorm]
   [SReadOld; SSaveY0; SApplyY0; (SSetPar Up); SObserve; (SSetPar Down); SObserve; (SView 0); (SView 1); (SView 0); (SView 1); (SSetPar Back); SObserveIfNorm; (SViewIfNorm 2); (SViewIfNorm 2); SRestoreY0]
-  QuotCentralRel.
+  QuotCentralRelAbs0.
